@@ -29,7 +29,8 @@ REQUIRED = ["assort_pairs_compared", "assort_pairs_nontrivial", "exhaustive_tabl
             "assorter_means_compared:some_cards_lack_the_contest",
             "reader_files_where_a_candidate_shares_its_name_with_the_contest_or_ballot", "reader_files_larger_than_4_MiB",
             "reader_files_without_a_final_line_break",
-            "contests_with_eleven_candidates_and_two_digit_rank_numbers"]
+            "contests_with_eleven_candidates_and_two_digit_rank_numbers",
+            "reader_files_with_a_row_whose_first_rank_field_is_blank"]
 ASSUMPTIONS = ["rankings are duplicate-free (the property's quantifier)", "candidate ids are strings in both readers",
                "JSON mapping per the RAIRE documentation: WINNER_ONLY <-> NEB, IRV_ELIMINATION + already_eliminated <-> NEN"]
 EXHAUSTIVE = "c14.assort enumerates every partial ranking x ordered pair x eliminated set for each n listed in the counters"
@@ -198,6 +199,13 @@ def gen_file(rng):
         for _ in range(rng.randint(1, 3)):
             c, bid = rng.choice(body).split(",")[:2]
             body.append(",".join([c, bid] + rng.sample(cands[c], rng.randint(0, len(cands[c])))))
+    if body and rng.random() < 0.15:
+        # a row whose FIRST rank field is blank (the voter left the first column empty; exported as an empty field): the
+        # candidates that follow are second, third ... on that ballot - for both readers
+        j = rng.randrange(len(body))
+        t = body[j].split(",")
+        if len(t) >= 3:
+            body[j] = ",".join(t[:2] + [""] + t[2:])
     if rng.random() < 0.5:
         rng.shuffle(body)
     return lines + body, cands
@@ -231,6 +239,8 @@ def run_file(case, rec):
             f.write("\n".join(lines) + ("" if no_eol else "\n"))
         if no_eol:
             rec.count("reader_files_without_a_final_line_break")
+        if any(",," in ln for ln in lines[1 + int(lines[0]):]):
+            rec.count("reader_files_with_a_row_whose_first_rank_field_is_blank")
         if any(ord(ch) > 127 for ln in lines for ch in ln):
             rec.count("reader_files_with_non_ascii_names")
         if any(t[0] in t[2:] or t[1] in t[2:] for t in (ln.split(",") for ln in lines[1 + int(lines[0]):])):
@@ -256,6 +266,10 @@ def run_file(case, rec):
         for con in gen[bid]:
             rec.count("reader_entries_compared")
             a, g = audit[bid][con], gen[bid][con]
+            # the preference order is over the contest's CANDIDATES: a token that names no candidate (a blank field, a
+            # write-in the contest does not list) holds a position on the row but is nobody's preference
+            a = {c: k for c, k in a.items() if c in cands.get(con, ())}
+            g = {c: k for c, k in g.items() if c in cands.get(con, ())}
             if set(a) != set(g) or any(a[c] != g[c] + 1 for c in g):
                 rec.violation("c14.readers", "preference_orders_differ", {"ballot": bid, "contest": con, "audit": a,
                                                                            "generator": g})
